@@ -12,13 +12,23 @@ VARIABLE l
 Init == l = 1
 
 Step(e) ==
-    IF "panic" \in DOMAIN e THEN Mismatch(l, [ev |-> e.ev, op |-> e.dir, ty |-> e.ty, x |-> e.x, panic |-> e.panic], "must not panic")
+    IF "panic" \in DOMAIN e /\ e.ev \in {"perm_long", "nbr_big"} THEN Mismatch(l, [ev |-> e.ev, op |-> e.op, panic |-> e.panic], "must not panic")
+    ELSE IF "panic" \in DOMAIN e THEN Mismatch(l, [ev |-> e.ev, op |-> e.dir, ty |-> e.ty, x |-> e.x, panic |-> e.panic], "must not panic")
     ELSE CASE e.ev = "masks" /\ e.dir = "sub" ->
                 (~SubmasksOK(e.list, e.x, e.bits)) => Mismatch(l, [ev |-> "masks", op |-> "iter_submasks", ty |-> e.ty, x |-> e.x, len |-> Len(e.list)],
                                                              "not every submask exactly once in decreasing unsigned order ending with 0")
            [] e.ev = "masks" /\ e.dir = "super" ->
                 (~SupermasksOK(e.list, e.x, e.bits)) => Mismatch(l, [ev |-> "masks", op |-> "iter_supermasks", ty |-> e.ty, x |-> e.x, len |-> Len(e.list)],
                                                                "not every supermask exactly once in increasing unsigned order ending with all-ones")
+           [] e.ev = "perm_long" ->
+                \* sequences longer than the generator enumerates (repeated elements, long non-increasing tails)
+                LET w == NextPermCons(e.seq)
+                IN (e.next # w.seq \/ e.ret # w.more) => Mismatch(l, [ev |-> "perm_long", op |-> "next_permutation", seq |-> e.seq, got |-> e.next, ret |-> e.ret], w)
+           [] e.ev = "nbr_big" ->
+                \* grids and cells beyond 2^31 / 2^32, given relative to the logged base
+                LET w == [n4 |-> NeighRel(Off4, 1, e.nr, e.mr, e.ir, e.jr), n4d |-> NeighRel(Off4d, 1, e.nr, e.mr, e.ir, e.jr),
+                          n8 |-> NeighRel(Off8, 1, e.nr, e.mr, e.ir, e.jr)]
+                IN (e.n4 # w.n4 \/ e.n4d # w.n4d \/ e.n8 # w.n8) => Mismatch(l, [ev |-> "nbr_big", op |-> "iter_neighbours", base |-> e.base, got |-> [n4 |-> e.n4, n4d |-> e.n4d, n8 |-> e.n8]], w)
            [] OTHER -> TRUE
 
 Next == l <= Len(Rec) /\ Step(Rec[l]) /\ l' = l + 1
